@@ -83,6 +83,18 @@ Theorem C15_burst33_undetected : forall l1 a b c d e l2,
 Proof. exact crc32_burst33_undetected. Qed.
 Print Assumptions C15_burst33_undetected.
 
+(* Refuted strengthening: "every burst of at most 32 bits anywhere in the STORED VALUE is an error" is
+   false - the burst theorems above are about the payload for a reason.  The checksum precedes the
+   payload; altering stored bytes 2..5 (three checksum bytes and the first payload byte, 4 adjacent
+   bytes) of the value for payload 01 02 03 04 05 yields a value that deserialises to other data.
+   Reproduced on the Go code by the driver (corpus case "straddle"). *)
+Theorem C15_stored_value_burst_refuted : forall (C : codecs) u,
+  le_enc 4 (crc32 [1;2;3;4;5]) = [244;153;11;71] /\
+  deserialize C [8; 244; 153;11;71;1; 2;3;4;5] u = Ok ([1;2;3;4;5], 0) /\
+  deserialize C [8; 244; 98;45;36;150; 2;3;4;5] u = Ok ([150;2;3;4;5], 0).
+Proof. intros C. exact (straddling_burst_undetected C true). Qed.
+Print Assumptions C15_stored_value_burst_refuted.
+
 Theorem C15_checksum_corruption_detected : forall (C : codecs) f k p u,
   dec_cks f = n_CRC32 -> bytes_ok p -> bytes_ok k -> length k = 4%nat ->
   k <> le_enc 4 (crc32 p) ->
